@@ -314,6 +314,25 @@ theorem C09_file (T : Tables) (msgs : List View) (e e0 : Event) (ni : Nat)
   · cases h1
   · cases h1
 
+/-- **All mode values.**  Whatever octal numeral the PATH record's `mode` field carries —
+any digits, any length, with or without the kernel's leading `0`, in particular the numeral
+of each of the 2^16 `st_mode` values — `ParseUint` reads its positional value `n`, and then
+(by `C09_file`) the file summary's mode is `oct4 (n % 4096)`, i.e. `mode & 07777` as four
+octal digits, and the object type is `classifyMode (n % 2^32)`. -/
+theorem C09_mode_numeral (ds : List Nat) (hne : ds ≠ []) (hd : ∀ d ∈ ds, d < 8)
+    (hv : octValue ds 0 < 2 ^ 64) (e : Event) (p : KV) (what : Bytes)
+    (hm : lookup kMode p = some (ds.map digitChar)) (hf : FileMirrors e what p) :
+    ∃ f, e.file = some f ∧ f.mode = oct4 (octValue ds 0 % 4096) ∧
+      e.objType = classifyMode (octValue ds 0 % 4294967296) what := by
+  obtain ⟨f, hfile, _, _, _, _, _, hrest⟩ := hf
+  rw [hm] at hrest
+  simp only [parseUint_octal ds hne hd hv] at hrest
+  exact ⟨f, hfile, hrest.1, hrest.2.2.2.2⟩
+
+/-- e.g. the numeral `040755`: value 16877, printed mode `0755`. -/
+example : octValue [0, 4, 0, 7, 5, 5] 0 = 16877 ∧ [0, 4, 0, 7, 5, 5].map digitChar = b! "040755" ∧
+    oct4 (16877 % 4096) = b! "0755" := by decide
+
 /-! ### object type -/
 
 /-- the object type the property asks for, from the file-type bits `mode & 0170000`. -/
